@@ -128,6 +128,22 @@ func Go(site string, f func()) {
 
 func Yield() { X.doOp(&op{kind: opYield}) }
 
+// SharedOp is the scheduling point in front of an access to memory that several threads share outside the
+// simulated objects (a variable captured by goroutine closures, a package-level variable, an atomic). The value
+// of such memory is not part of the state key, so the global order of these accesses is: two prefixes are
+// merged only if they performed their shared accesses in the same thread order.
+func SharedOp() {
+	x := X
+	if x == nil || x.teardown || x.cur == nil {
+		return
+	}
+	x.doOp(&op{kind: opYield})
+	var s Thread
+	s.h1, s.h2 = x.sharedSeq[0], x.sharedSeq[1]
+	s.mix(x.cur.ID)
+	x.sharedSeq = [2]uint64{s.h1, s.h2}
+}
+
 func Sleep(d int64) {
 	x := X
 	if x.teardown {
